@@ -106,7 +106,11 @@ fn xlsx_case(rng: &mut Rng, out: &mut UnitResult, ctxj: serde_json::Value) {
         book.sheets.push(sh);
     }
     let mut ch = XlsxChoices::random(rng);
-    ch.name_case = false;
+    // sheet parts that own tables keep their canonical case (enc::xlsx); table parts, styles, workbook parts do not
+    ch.name_case = rng.chance(1, 3);
+    if ch.name_case {
+        out.feat("part_name_case");
+    }
     let enc = xlsx::encode(&book, &ch, rng);
     let fail = |out: &mut UnitResult, class: String, d: serde_json::Value| out.fail(class, json!({"ctx": ctxj, "detail": d, "input_hex": hex(&enc.bytes)}));
     let mut wb = match guard(|| Xlsx::new(Cursor::new(enc.bytes.clone()))) {
